@@ -4,6 +4,7 @@
 import Avra.Spec.HexReader
 import Avra.Spec.Mnemonic
 import Avra.Spec.Gate
+import Avra.Spec.EvalCmd
 namespace Avra.Spec
 open Avra
 
@@ -44,6 +45,7 @@ def specCommand (kind : String) (args : List String) : Option String :=
   | "ENC" => encCommand args
   | "GATE" => gateCommand args
   | "HEXCHECK" => hexCheckCommand args
+  | "EVAL" => evalCommand args
   | _ => none
 
 end Avra.Spec
